@@ -31,7 +31,7 @@ func steps(tier string, q, th int) int {
 }
 
 func init() {
-	Engines["C01"] = chainEngine("C01", &sim.ChainCfg{Diff: true, Model: true},
+	Engines["C01"] = chainEngine("C01", &sim.ChainCfg{Diff: true, Model: true, RealMiner: true},
 		func(tier string) *sim.GenParams {
 			return &sim.GenParams{Mix: sim.OpMix{"tx": 6, "kvtx": 5, "mine": 5, "deliver": 4, "walk": 4, "reopen": 1, "bg": 1, "clock": 1, "badblock": 2}, MaxSteps: steps(tier, 24, 40), MaxNodes: 3, Windows: []int{0}, MapOrders: true, SmallCache: true, Defer: true}
 		}, "",
@@ -39,12 +39,12 @@ func init() {
 			return st.Probes["walk-undo"] > 0 && st.Probes["fresh-replay-compared"] > 0
 		})
 
-	Engines["C02"] = chainEngine("C02", &sim.ChainCfg{Conserve: true},
+	Engines["C02"] = chainEngine("C02", &sim.ChainCfg{Conserve: true, RealMiner: true},
 		func(tier string) *sim.GenParams {
 			return &sim.GenParams{Mix: sim.OpMix{"tx": 8, "kvtx": 3, "badtx": 5, "mine": 5, "deliver": 4, "walk": 4, "reopen": 1, "badblock": 2, "clock": 1}, MaxSteps: steps(tier, 24, 40), MaxNodes: 3, Windows: []int{0, 2}, MapOrders: true, SmallCache: true, Defer: true}
 		}, "", func(st *sim.RunStats) bool { return st.Probes["tx-admitted"] > 1 && st.Probes["blocks-with-txs"] > 0 })
 
-	Engines["C03"] = chainEngine("C03", &sim.ChainCfg{Admit: true, PoolOrder: true, Conserve: true},
+	Engines["C03"] = chainEngine("C03", &sim.ChainCfg{Admit: true, PoolOrder: true, Conserve: true, RealMiner: true},
 		func(tier string) *sim.GenParams {
 			return &sim.GenParams{Mix: sim.OpMix{"tx": 6, "kvtx": 6, "respend": 5, "mine": 5, "deliver": 5, "walk": 3, "reopen": 1, "bg": 1, "clock": 1, "badblock": 2}, MaxSteps: steps(tier, 24, 40), MaxNodes: 3, Windows: []int{0}, MapOrders: true, SmallCache: true, Defer: true}
 		}, "", func(st *sim.RunStats) bool { return st.Probes["tx-refused"] > 0 && st.Probes["tx-admitted"] > 1 })
@@ -54,7 +54,7 @@ func init() {
 			return &sim.GenParams{Mix: sim.OpMix{"tx": 4, "mine": 6, "deliver": 8, "walk": 2, "reopen": 1, "truncate": 2, "badblock": 2}, MaxSteps: steps(tier, 26, 44), MaxNodes: 3, Windows: []int{0}, MapOrders: true, SmallCache: true}
 		}, "", func(st *sim.RunStats) bool { return st.Probes["trunk-switch"] > 0 || st.Probes["truncate"] > 0 })
 
-	Engines["C05"] = chainEngine("C05", &sim.ChainCfg{Reopen: true, NoTrace: true},
+	Engines["C05"] = chainEngine("C05", &sim.ChainCfg{Reopen: true, NoTrace: true, RealMiner: true},
 		func(tier string) *sim.GenParams {
 			return &sim.GenParams{Mix: sim.OpMix{"tx": 6, "kvtx": 4, "badtx": 4, "respend": 2, "mine": 5, "deliver": 5, "walk": 4, "badblock": 3, "truncate": 1, "clock": 1}, MaxSteps: steps(tier, 20, 36), MaxNodes: 2, Windows: []int{0, 2}, MapOrders: true, SmallCache: true, StorFaults: true}
 		}, "", func(st *sim.RunStats) bool {
@@ -68,14 +68,14 @@ func init() {
 			return st.Probes["commit-effect-checked"] > 0 && st.Probes["invoke-admitted"] > 1
 		})
 
-	Engines["C13"] = chainEngine("C13", &sim.ChainCfg{PoolOrder: true, Diff: true, DiffEveryN: 1},
+	Engines["C13"] = chainEngine("C13", &sim.ChainCfg{PoolOrder: true, Diff: true, DiffEveryN: 1, RealMiner: true, BigTx: true},
 		func(tier string) *sim.GenParams {
 			return &sim.GenParams{Mix: sim.OpMix{"tx": 8, "kvtx": 8, "mine": 5, "deliver": 3, "clock": 1}, MaxSteps: steps(tier, 22, 40), MaxNodes: 2, Windows: []int{0}, MapOrders: true, SmallCache: true}
 		}, "", func(st *sim.RunStats) bool {
 			return st.Probes["blocks-with-txs"] > 0 && st.Probes["fresh-replay-compared"] > 0
 		})
 
-	Engines["C06"] = chainEngine("C06", &sim.ChainCfg{Crash: true, NoStepOrcl: true},
+	Engines["C06"] = chainEngine("C06", &sim.ChainCfg{Crash: true, NoStepOrcl: true, RealMiner: true},
 		func(tier string) *sim.GenParams {
 			return &sim.GenParams{Mix: sim.OpMix{"tx": 6, "kvtx": 4, "mine": 5, "deliver": 5, "walk": 2, "truncate": 1, "respend": 1}, MaxSteps: steps(tier, 10, 14), MaxNodes: 2, Windows: []int{0, 2}, MapOrders: true, SmallCache: true, NoTinyUtxo: true}
 		}, "", func(st *sim.RunStats) bool { return st.Probes["crash-image-synced"] > 3 })
